@@ -49,6 +49,13 @@ ListedSeq == SetToSeq(ListedIds \cup {k + 1 : k \in ListedIds} \cup {65535})
 ServerIdCases ==
   [q \in 1..Len(ListedSeq) |-> [kind |-> "new_server_hello", ver |-> 771, random |-> Rand(2, 32), sid |-> None,
                                  ciphers |-> <<ListedSeq[q] % 65536>>, comp |-> <<0>>, ext |-> None]]
+(* ... and the same whatever the hello type: every listed id (and its neighbour) in one list, through the TLS and DTLS hellos, built and parsed; *)
+(* all 65536 ids through a directly built DTLS hello                                                                                           *)
+AllListedCases ==
+  [q \in 1..4 |-> [kind |-> <<"new_dtls_client_hello", "parsed_dtls_client_hello", "parsed_client_hello", "new_client_hello">>[q],
+                    ver |-> <<65277, 65277, 771, 771>>[q], random |-> Rand(4, 32), sid |-> None, ciphers |-> ListedSeq, comp |-> <<0>>, ext |-> None]]
+  \o [h \in 1..2 |-> [kind |-> "new_dtls_client_hello", ver |-> 65277, random |-> Rand(3, 32), sid |-> None,
+                        ciphers |-> [j \in 1..32768 |-> (h - 1) * 32768 + j - 1], comp |-> <<0>>, ext |-> None]]
 (* the lookup is per element: every list of length <= 4 over {two listed ids, a GREASE id, an unlisted id} - repeats, *)
 (* alternations and unlisted ids between listed ones                                                                  *)
 PatIds == <<47, 4865, 2570, 65535, 0>>      \* two listed ids, GREASE, unlisted, and id 0 (listed: TLS_NULL_WITH_NULL_NULL - also every integer type's default)
@@ -82,7 +89,7 @@ DtlsNewCases ==
        ciphers |-> CiphLists[((w + l) % 4) + 1], comp |-> Comps[((w + l) % 3) + 1], ext |-> Exts[((w + l) % 3) + 1]]]])
   \o [k \in 1..6 |-> [kind |-> "new_dtls_client_hello", ver |-> 65279, random |-> <<<<156>>, <<156, 156>>, <<1, 2, 3>>, <<0, 0, 1>>, <<255>>, <<128, 0, 0>>>>[k],
                        sid |-> None, ciphers |-> <<47>>, comp |-> <<0>>, ext |-> None]]
-ASSUME TLCSet(1, NewCases \o ParsedCases \o AllIdCases \o ServerIdCases \o PatternCases \o MagicCases \o StoredCases \o DtlsNewCases)
+ASSUME TLCSet(1, NewCases \o ParsedCases \o AllIdCases \o AllListedCases \o ServerIdCases \o PatternCases \o MagicCases \o StoredCases \o DtlsNewCases)
 Cases == TLCGet(1)
 N == Len(Cases)
 
